@@ -232,7 +232,9 @@ def put_rr(rng, mb, qtype, kind, hostile):
         hdr(t, 1, len(nm) + rng.choice([-2, -1, 1, 2, 5]))
         mb.raw(nm)
     elif kind == "soa":
-        nm = b"\x02ns\xc0\x0c" + b"\x04root\xc0\x0c"
+        # RFC 1035 8: the mailbox local part is ONE label and may contain '.', e.g. Action\.domains -> 0e "Action.domains";
+        # such a name is only skipped by a resolver, so it must not make the reply unusable
+        nm = b"\x02ns\xc0\x0c" + (b"\x08john.doe\xc0\x0c" if rng.random() < 0.3 else b"\x04root\xc0\x0c")
         hdr(6, 1, len(nm) + 20); mb.raw(nm)
         for _ in range(4): mb.u32(rng.randrange(100000))
         mb.u32(rng.choice(TTLS))
